@@ -42,14 +42,17 @@ MANIFEST = {
             's-domain system, the ac immittance of each leaf is the h-image of its s-domain immittance, hence for a non-singular ac '
             'system the phasor solution is the image of the s-domain solution, summed over same-frequency sources as '
             'source phasor x transfer function(j omega); sinusoid -> phasor -> time is the identity (algebraically and over the reals, '
-            'where d/dt is multiplication by j omega). The model is tied to the code by evaluating it inside Coq over Q(i) on what the real '
-            'ac and s-domain analyses returned.',
+            'where d/dt is multiplication by j omega); every branch of the same-frequency term merge (ACChecker._is_sum_ac: y = 0, x = 0, '
+            'polar sqrt/atan2) yields the sum of the terms\' phasors, and the frequency-response read-out (Expr.magnitude / phase / dB) '
+            'reconstructs H(j omega) - the sqrt/atan2 contract is proved over the reals (polar_R_right/left). The model is tied to the '
+            'code by evaluating it inside Coq over Q(i) on what the real ac and s-domain analyses returned.',
     'note': 'Trusted: Coq kernel/vm_compute; tools/tr_stamps.py, tools/tr_immittance.py; spec coq/theory/Circuit.v; hand models '
             'props/C14model.v, theory/MNA.v (validated by correspondence); "evaluate at s = j omega" is an abstract partial homomorphism '
-            '(sympy substitution and linear solve are modelled oracles whose contract is checked per case); ACChecker term recognition, '
-            'Superposition decomposition and CPE powers s**alpha are oracles validated by correspondence; PhasorReal.v uses the '
-            'standard-library real-number axioms (printed).',
-    'technique': 'Coq proof over stamps/tables translated from source (homomorphism transport, linearity, uniqueness) + in-Coq correspondence over Q(i) + textbook phasor-MNA/ODE search oracle',
+            '(sympy substitution and linear solve are modelled oracles whose contract is checked per case); ACChecker term recognition '
+            '(which inputs are accepted: refusals of non-sinusoids are searched, not proved), Superposition decomposition, sympy '
+            'sqrt/atan2/log10 evaluation and CPE powers s**alpha are oracles validated by correspondence; symbolic omega, symbolic '
+            'amplitudes and symbolic phases are covered by the search oracle only; PhasorReal.v uses the standard-library real-number axioms (printed).',
+    'technique': 'Coq proof over stamps/tables translated from source (homomorphism transport, linearity, uniqueness, polar form) + in-Coq correspondence over Q(i) + textbook phasor-MNA/ODE/metamorphic search oracle',
 }
 
 CNAMES = ['RC', 'L', 'V', 'AM', 'I', 'VCVS', 'VCCS', 'CCCS', 'CCVS', 'K', 'TF', 'GY', 'TL', 'TPA', 'TPB', 'TPG', 'TPH',
@@ -235,6 +238,9 @@ CORPUS = [
              {'name': 'I1', 'prefix': 'I1 0 2', 'desc': {'form': 'ac', 'A': '2', 'k': 0, 'w': '3/2'}}]},
     {'netlist': ['V1 1 0 ac 2', 'R1 1 2 1', 'L1 2 0 2', 'L2 3 0 2', 'K1 L1 L2 {1/2}', 'R2 3 0 4', 'C1 3 0 {1/5}'], 'omega_subs': '2',
      'src': [{'name': 'V1', 'prefix': 'V1 1 0', 'desc': {'form': 'ac', 'A': '2', 'k': 0, 'w': '2'}}]},
+    # a t-domain source that is a PRODUCT of two sinusoids, cos(t) cos(2t) = cos(t)/2 + cos(3t)/2
+    {'netlist': ['V1 1 0 {cos(t)*cos(2*t)}', 'R1 1 2 2', 'C1 2 0 {1/4}'], 'product_source': True,
+     'src': [{'name': 'V1', 'prefix': 'V1 1 0', 'desc': {'form': 't', 'terms': [{'f': 'cos', 'A': '1/2', 'k': 0, 'w': '1'}, {'f': 'cos', 'A': '1/2', 'k': 0, 'w': '3'}]}}]},
     # a source written as one product term with a symbolic amplitude sum (expanded and merged inside ACChecker)
     {'netlist': ['V1 1 0 {(2 + a)*sin(2*t)}', 'R1 1 2 2', 'C1 2 0 {1/4}'], 'sym_subs': {'a': '3/2'},
      'src': [{'name': 'V1', 'prefix': 'V1 1 0', 'desc': {'form': 't', 'terms': [{'f': 'sin', 'A': '7/2', 'k': 0, 'w': '2'}]}}]},
@@ -284,6 +290,37 @@ def gen_phasor_cases(rng, tier):
         else:                # three terms, symbolic amplitudes
             ex = '(a + %s)*sin(%s) + b*sin(%s) - %s*sin(%s)' % (sym(A), wt, wt, sym(B), wt)
         out.append({'mode': 'phasor', 'expr': ex, 'w': str(w), 'oracle_only': True, 'family': 'sum%d' % fam})
+    # a cos(wt) + b sin(wt) with rational a, b (merged by the polar `else` branch of _is_sum_ac: sqrt / atan2):
+    # the result is a Gaussian rational again, so it is compared inside Coq with the sum of the terms' phasors
+    for i in range(12 if tier == 'quick' else 80):
+        w = rng.choice(OMEGAS)
+        ts = [{'f': 'cos', 'A': str(netgen.val(rng, 1, 7, (1, 1, 2, 3)) * rng.choice([1, -1])), 'k': rng.choice([0, 2]), 'w': str(w)},
+              {'f': 'sin', 'A': str(netgen.val(rng, 1, 7, (1, 1, 2, 3)) * rng.choice([1, -1])), 'k': rng.choice([0, 2]), 'w': str(w)}]
+        out.append({'mode': 'phasor', 'expr': ' + '.join(term_text(t) for t in ts), 'terms': ts, 'w': str(w), 'family': 'polar'})
+    # inputs that are NOT a single sinusoid: phasor() must refuse them (or, if it answers, time() must give the input back)
+    w = rng.choice([Fraction(2), Fraction(3)])
+    for ex, prod in (('exp(-t)*cos(%s*t)', False), ('t*cos(%s*t)', False), ('cos(%s*t)**2', False), ('cos(t**2 + %s)', False),
+                     ('u(t)*cos(%s*t)', False), ('cos(%s*t) + cos(5*t)', False), ('cos(%s*t) + 1/(1 + t**2)', False),
+                     ('cos(t)*cos(%s*t)', True), ('sin(%s*t)*cos(5*t)', True), ('2*cos(%s*t)*sin(t + 1)', True)):
+        out.append({'mode': 'phasor', 'expr': ex % sym(w), 'w': str(w), 'oracle_only': True, 'family': 'nonsinusoid', 'product': prod})
+    return out
+
+
+def gen_symphase_cases(rng, tier):
+    """single-frequency circuits whose ac sources all carry the SYMBOLIC phase phi: every phasor must be
+    exp(j phi) times the phasor of the same circuit with phase 0 (which the correspondence covers)"""
+    out = []
+    for i in range(4 if tier == 'quick' else 30):
+        nl = netgen.gen_netlist(rng, 's', size=rng.choice([2, 3]), extras=(i % 2 == 1), allow=['E', 'G', 'TF', 'K', 'W', 'dup'])
+        w = rng.choice(OMEGAS)
+        lines = []
+        for l in nl['lines']:
+            p = l.split()
+            if re.match(r'^[VI]\d+$', p[0]):
+                lines.append('%s ac %s PHI %s' % (' '.join(p[:3]), fs(netgen.val(rng, 1, 6, (1, 1, 2))), fs(w)))
+            else:
+                lines.append(l)
+        out.append({'mode': 'symphase', 'netlist': lines})
     return out
 
 
@@ -672,7 +709,7 @@ def entries_lit(A, Zv, nn, mm):
 
 HEADER = ('Require Import LT.FieldSec LT.Circuit LT.MNA LT.SeqQcI LT.PhasorHom LT.PhasorTime.\n'
           'Require Import Gen.StampsGen Gen.C01model Gen.ImmittanceGen Gen.C14 Gen.C14imm Gen.C14model.\n'
-          'Local Open Scope Z_scope.\n')
+          'Local Open Scope Z_scope.\nLocal Open Scope bool_scope.\n')
 
 
 def build_checks(ci, case, wr, tr, res):
@@ -739,6 +776,22 @@ def build_checks(ci, case, wr, tr, res):
             if len(ad.get('unit', [])) == 1 and u and isinstance(ad['V'].get(case['transfer_elt']), str):
                 checks.append((tag + '/transfer_phasor' + lad, None, 'qci_eqb (cimul %s (src_P %s %s)) %s' % (
                     gq(ad['transfer']), wl, desc_lit(srcdesc[case['transfer_src']]), gq(ad['V'][case['transfer_elt']]))))
+        if isinstance(ad.get('transfer'), str) and isinstance(ad.get('fresp'), dict) and 'error' not in ad['fresp']:
+            for rt in ('g', 'c'):
+                fr = ad['fresp'].get(rt) or {}
+                need = ('re', 'im', 'mag2', 'polar', 'db10', 'abs2', 'deg')
+                if any(fr.get(k) is None for k in need):
+                    res.count('fresp_not_rational')
+                    continue
+                checks.append((tag + '/fresp_' + rt, None, 'check_fresp %s %s %s %s %s %s && qc_eqb %s %s && qci_eqb %s qi0 && %s && %s' % (
+                    gq(ad['transfer']), qc(fr['re'].split(',')[0]), qc(fr['im'].split(',')[0]), qc(fr['mag2'].split(',')[0]), gq(fr['polar']),
+                    qc(fr['db10'].split(',')[0]), qc(fr['abs2'].split(',')[0]), qc(fr['mag2'].split(',')[0]), gq(fr['deg']),
+                    b(fr.get('angle_same')), b(fr.get('mag_nonneg')))))
+                res.count('fresp_checked')
+        elif isinstance(ad.get('fresp'), dict) and 'error' in ad['fresp']:
+            res.count('fresp_error')
+        if isinstance(ad.get('transfer'), str) and ad.get('transfer_s'):
+            pass
         elif 'transfer' in case:
             res.count('transfer_hang' if isinstance(ad.get('transfer'), dict) and ad['transfer'].get('hang') else 'transfer_unavailable')
         # --- time domain
@@ -904,7 +957,8 @@ def run(tier='quick', replay=None):
                                                       'superposition', 'sol_scale', 'superposition_sum', 'sol_unique',
                                                       'phasor_time_roundtrip', 'roundtrip_unique', 'deriv_is_jw', 'steady_R', 'steady_L', 'steady_C',
                                                       'phasor_time_roundtrip_cos_R', 'phasor_time_roundtrip_sin_R', 'dtime_is_derivative',
-                                                      'steady_state_C_R', 'steady_state_L_R')) + '\n')
+                                                      'steady_state_C_R', 'steady_state_L_R', 'polar_sound', 'polar_modulus', 'mag_sq_quotient',
+                                                      'polar_R_right', 'polar_R_left')) + '\n')
             for f, t in texts.items():
                 w.write(f, t)
             bad = core.gate_text('generated+props', '\n'.join(texts.values()))
@@ -927,7 +981,7 @@ def run(tier='quick', replay=None):
         # ---- correspondence + oracle ------------------------------------------------------
         cases = [dict(c) for c in CORPUS] + gen_cases(rng, tier) + gen_sym_cases(rng, tier)
         pcases = gen_phasor_cases(rng, tier)
-        ocases = ode_cases()
+        ocases = ode_cases() + gen_symphase_cases(rng, tier)
         if replay and 'case' in replay:
             cases, pcases, ocases = [replay['case']], [], []
             if replay['case'].get('mode') == 'phasor':
@@ -1026,6 +1080,10 @@ def run(tier='quick', replay=None):
             res.add_case('phasor:' + pc['expr'], True)
             if pc.get('family'):
                 res.count('phasor_' + pc['family'])
+            if pr.get('refused'):
+                # a refusal (ValueError 'Expecting an AC signal') is an error, not a wrong value
+                res.count('phasor_refused_' + ('nonsinusoid' if pc.get('family') == 'nonsinusoid' else 'sinusoid'))
+                continue
             if pr.get('diff_zero') is False:
                 res.counterexamples.append({'case': pc, 'what': 'phasor(%s).time() differs from the sinusoid' % pc['expr'], 'reported': pr.get('time_str'), 'expected': pc['expr']})
             if pr.get('expected_ok') is False:
@@ -1035,9 +1093,21 @@ def run(tier='quick', replay=None):
                 res.count('phasor_value_checked_by_oracle')
             if pc.get('oracle_only') or not model_ok:
                 continue
+            wkey = pr.get('omega')
+            if pc.get('terms'):
+                tm = pr.get('time') or {}
+                cc, sc = (tm.get('terms', {}).get(wkey) or [None, None])
+                if pr.get('P') is None or cc is None or sc is None or tm.get('rest') != '0':
+                    res.count('phasor_polar_not_gaussian_rational')
+                    continue
+                items.append((gi, None, 'check_srcP %s %s %s && check_time %s %s %s && qc_eqb %s %s' % (
+                    qc(wkey), desc_lit({'form': 't', 'terms': pc['terms']}), gq(pr['P']), gq(pr['P']), qc(cc.split(',')[0]), qc(sc.split(',')[0]),
+                    qc(wkey), qc(pc['w'])), -1))
+                labels[gi] = ('phasor/' + pc['expr'], ('phasor', pi_))
+                gi += 1
+                continue
             t = pc['term']
             tl = 'Term %s %s (%d) %s' % ('TCos' if t['f'] == 'cos' else 'TSin', qc(t['A']), t['k'], qc(t['w']))
-            wkey = pr.get('omega')
             tm = pr.get('time') or {}
             cc, sc = (tm.get('terms', {}).get(wkey) or [None, None])
             if pr.get('P') is None or cc is None or sc is None or tm.get('rest') != '0' or Fraction(wkey) != Fraction(t['w']):
@@ -1047,6 +1117,16 @@ def run(tier='quick', replay=None):
             labels[gi] = ('phasor/' + pc['expr'], ('phasor', pi_))
             gi += 1
         for oc, orr in zip(ocases, ores):
+            if oc.get('mode') == 'symphase':
+                if 'error' in orr:
+                    res.count('symphase_error:' + orr['error'].split(':')[0])
+                    continue
+                res.count('symbolic_phase_circuits')
+                res.count('symbolic_phase_phasors_compared', orr.get('compared', 0))
+                res.add_case('symphase:' + '\n'.join(oc['netlist']), orr.get('compared', 0) > 0)
+                for bd in orr.get('bad', []):
+                    res.counterexamples.append({'case': oc, 'what': 'ac source with symbolic phase: ' + bd})
+                continue
             if 'error' in orr:
                 res.count('ode_error')
                 continue
@@ -1092,8 +1172,14 @@ def run(tier='quick', replay=None):
         seen = set()
 
         def fingerprint(case, what='', ladder=False):
+            if case.get('mode') == 'phasor' and case.get('family') == 'nonsinusoid':
+                return 'ACChecker._is_ac:product-of-sinusoids' if case.get('product') else 'phasor:nonsinusoid-accepted'
+            if case.get('mode') == 'symphase':
+                return 'symbolic-phase'
+            if case.get('product_source'):
+                return 'ACChecker._is_ac:product-of-sinusoids'
             if case.get('mode') == 'phasor':
-                return 'phasor-roundtrip' + (':same-frequency-sum' if case.get('family') else '')
+                return 'phasor-roundtrip' + ((':polar-branch' if case['family'] == 'polar' else ':same-frequency-sum') if case.get('family') else '')
             if case.get('mode') == 'ode':
                 return 'ode-substitution:' + str(case.get('ode'))
             if what.startswith('transfer') and ladder:
